@@ -14,21 +14,27 @@ Record option_ := { single : option Z; name : option str; knd : kind }.
 
 Definition is_digit (c : Z) := (48 <=? c) && (c <=? 57).
 Fixpoint dec_val (s : str) (acc : Z) : Z := match s with [] => acc | c :: r => dec_val r (acc * 10 + (c - 48)) end.
-(* optional sign, then 0 or a digit string without leading zero; at most 25 digits (enough to exceed every range) *)
+Fixpoint oct_val (s : str) (acc : Z) : Z := match s with [] => acc | c :: r => oct_val r (acc * 8 + (c - 48)) end.
+Definition is_octal (c : Z) := (48 <=? c) && (c <=? 55).
+(* strconv.ParseInt(s, 0, bits) on the spellings generated: optional sign, then decimal digits, or 0 followed by octal digits.
+   sign: 0 none, 1 plus, 2 minus *)
+Definition split_sign (s : str) : Z * str :=
+  match s with c :: r => if c =? 45 then (2, r) else if c =? 43 then (1, r) else (0, s) | [] => (0, s) end.
 Definition int_value (s : str) : option Z :=
-  let '(neg, body) := match s with c :: r => if c =? 45 then (true, r) else if c =? 43 then (false, r) else (false, s) | [] => (false, s) end in
+  let '(sg, body) := split_sign s in
   match body with
   | [] => None
   | c :: r =>
-    if forallb is_digit body && (negb (c =? 48) || (match r with [] => true | _ => false end)) then
-      Some (if neg then - dec_val body 0 else dec_val body 0)
+    if forallb is_digit body then
+      let mag := if c =? 48 then (if forallb is_octal r then Some (oct_val r 0) else None) else Some (dec_val body 0) in
+      match mag with Some v => Some (if sg =? 2 then - v else v) | None => None end
     else None
   end.
 Definition valid_int (bits : Z) (signed : bool) (s : str) : bool :=
   match int_value s with
   | None => false
   | Some v => if signed then (- 2 ^ (bits - 1) <=? v) && (v <? 2 ^ (bits - 1))
-              else (0 <=? v) && (v <? 2 ^ bits) && negb (match s with c :: _ => c =? 45 | [] => false end)
+              else (0 <=? v) && (v <? 2 ^ bits) && (fst (split_sign s) =? 0)      (* ParseUint permits no sign *)
   end.
 Definition mem (s : str) (l : list str) := existsb (seq_eq s) l.
 Definition bool_spellings : list str :=
